@@ -21,6 +21,9 @@ type c11Case struct {
 }
 
 func c11close(a, b float64) bool {
+	if math.IsInf(a, 0) || math.IsInf(b, 0) {
+		return a == b
+	}
 	return math.Abs(a-b) <= 1e-9*math.Max(1, math.Max(math.Abs(a), math.Abs(b))) || math.Abs(a-b) <= 1e-9*math.Abs(b)
 }
 
@@ -263,6 +266,40 @@ func c11Check(c c11Case) (v vcase.Verdict) {
 				}
 			}
 			v.Label("infinite_extremes")
+		}
+		// A zero is a zero whatever its sign: with every value moved so that the smallest is 0
+		// (exact for the integers used here) and the zeros of the first sample written as -0,
+		// every result is again the same.
+		whole := true
+		for _, x := range append(append([]float64(nil), c.X1...), c.X2...) {
+			whole = whole && x == math.Trunc(x) && math.Abs(x) < 1<<40
+		}
+		if whole && lo < hi {
+			y1, y2 := append([]float64(nil), c.X1...), append([]float64(nil), c.X2...)
+			nz := 0
+			for i := range y1 {
+				if y1[i] -= lo; y1[i] == 0 {
+					y1[i] = math.Copysign(0, -1)
+					nz++
+				}
+			}
+			for i := range y2 {
+				y2[i] -= lo
+			}
+			if nz > 0 {
+				for i, alt := range []LocationHypothesis{LocationLess, LocationDiffers, LocationGreater} {
+					r, err := MannWhitneyUTest(y1, y2, alt)
+					if err != nil || r == nil {
+						v.Failf("MannWhitneyUTest(%v, %v, %d) (zeros of the first sample negative): error %v", y1, y2, alt, err)
+						return
+					}
+					if r.U != keptCopy[i].U || !(c11close(r.P, keptCopy[i].P) || math.Abs(r.P-keptCopy[i].P) <= 1e-12) {
+						v.Failf("MannWhitneyUTest(%v, %v, alt=%d): U=%v P=%v, but U=%v P=%v for %v, %v, which are the same values shifted by %v", y1, y2, alt, r.U, r.P, keptCopy[i].U, keptCopy[i].P, c.X1, c.X2, lo)
+						return
+					}
+				}
+				v.Label("negative_zero")
+			}
 		}
 	}
 	for i := range x1c {
